@@ -6,13 +6,13 @@ int xv_threw; uint64_t xv_clock, xv_rmw_old; _Bool xv_cas_ok;
 #define CAP 2
 #endif
 #define RING_REQ_OBL "nbq.scq.requires"
-size_t xv_expected_rs; uint64_t xv_ev;
+size_t xv_expected_rs; unsigned short xv_ev;
 #include "../scq/ring_stub.h"
 
 /* element model: a payload word + ghost life-cycle flags.  A storage cell is raw memory until placement-new (alive=0). */
 typedef struct { uint64_t v; _Bool alive; _Bool moved; } T;
 unsigned g_destroyed[CAP], g_constructed[CAP], g_movedout[CAP];   /* ghost counters per storage cell */
-uint64_t g_t_construct, g_t_destroy, g_t_moveout;                   /* event times of the last placement-new / ~T / move-out of a cell */
+unsigned short g_t_construct, g_t_destroy, g_t_moveout;                   /* event times of the last placement-new / ~T / move-out of a cell */
 unsigned g_ext_moved;                                             /* moves out of an object that is not a storage cell (the caller's value) */
 struct nbq { size_t _capacity; size_t _remap_shift; T _storage[CAP]; struct ring _allocated_queue; struct ring _free_queue;
              size_t xv_storage_words; size_t xv_ring_cap[2], xv_ring_rs[2]; int xv_ring_tag[2]; };
